@@ -56,7 +56,7 @@ BITS_BIT = '''
 def bit(self, i):
     if 0 <= i < self.__sz:
         return (self.ival >> i) & 0x1
-    elif 0 <= -i <= self.__sz:
+    elif 0 < -i <= self.__sz:
         return (self.ival >> (self.__sz+i)) & 0x1
     else:
         raise IndexError
@@ -209,7 +209,7 @@ def __mul__(self, rvalue):
     return Bits(self.ival*m, self.size)
 '''
 BITS_ROP = 'def %s(self, lvalue):\n    return (self %s lvalue)\n'
-BITS_RSUB = 'def __rsub__(self, lvalue):\n    return Bits(lvalue, self.size) - self\n'
+BITS_RSUB = 'def __rsub__(self, lvalue):\n    return Bits(lvalue) - self\n'
 BITS_FLOORDIV = '''
 def __floordiv__(self, rvalue):
     if not isinstance(rvalue, Bits):
